@@ -28,6 +28,48 @@ claim(
     "SQL read-set / write-event coverage via SQLite authorizer + predicate truth tables + path enumeration (must-precede, same-region)",
 )
 
+claim(
+    "C09",
+    "Clause level, strong: catalogue facts (CHECK constraints, RAISE(ABORT) triggers with their events, WHEN clauses and kind "
+    "predicates as truth tables over the enums) versus the row invariants; table ownership from the compiled write effects of all "
+    "SQL call sites; detached-flag maintenance, cycle-check placement and the state-transition relation on all paths of each write "
+    "site; the _HASH_TRANSITIONS whitelist versus its producers and the file table's constraints. Quantifies over all database "
+    "states for the per-row and per-site clauses; graph-wide invariants after arbitrary operation sequences are not decided.",
+    STATIC_TB,
+    "catalogue introspection + truth tables of trigger/CHECK predicates + write-effect ownership + path enumeration per write site",
+)
+
+claim(
+    "C06",
+    "Clause level, strong: every file-system deletion effect in the package is enumerated against a frozen site table (no recursive "
+    "delete anywhere); writers of the deletion queue are frozen; File.before_delete is interpreted over all 8 file states x hash "
+    "known; the unlink in remove_deletable_files and in the clean tool is reachable only past the re-hash comparison on every "
+    "path; Builder.finalize's guards are folded over all 64 ReturnCode flag sets x targets x --no-clean; the clean tool's filters "
+    "and the held-node query are truth tables. Does not decide that database memories of every history describe files StepUp wrote.",
+    STATIC_TB,
+    "effect enumeration (who-may-delete) + finite-domain interpretation + guarded-by on all paths + guard truth table over the flag enum",
+)
+
+claim(
+    "C07",
+    "Clause level, weak: order and shape of the cleanup sequence and of the detached-node deletion loop (release edges, queue file, "
+    "delete; repeat while something was deleted), static-tree pruning before the base deletion, directory queuing, optional-revert "
+    "filter. Completeness of the deletion fixed point for arbitrary detached subgraphs is a run-time property and is NOT claimed.",
+    STATIC_TB,
+    "path enumeration (must-precede, on-all-paths) + loop-shape check + SQL filter truth table",
+)
+
+claim(
+    "C03",
+    "Clause level: the shared blocked-input predicate (identity in dispatch and report, truth table over state x detached x dynamic, "
+    "cross-checked with _derive_job by finite-domain interpretation); hash-before/hash-after/fail-and-drain ordering on all paths of "
+    "execute_job/_new_run/try_skip_job; atomic completion region without await; amend classification over Availability; agreement "
+    "of the amend-time, defer-time and report-time predicates as tables; freshness test orientation and stop-time pruning. The race "
+    "windows themselves (what an external writer does during the command) are not decided.",
+    STATIC_TB + " Assumes the single-threaded asyncio loop.",
+    "SQL predicate truth tables + finite-domain interpretation + path enumeration (order, same-region, no-await-between)",
+)
+
 _PENDING = "rules designed in DESIGN.md section 4 but not implemented yet in this session; no claim is made until the check exists"
-for _pid in ["C01", "C02", "C03", "C04", "C05", "C06", "C07", "C08", "C09", "C11", "C12", "C13", "C14", "C15", "C16", "C17", "C19", "C20"]:
+for _pid in ["C01", "C02", "C04", "C05", "C08", "C11", "C12", "C13", "C14", "C15", "C16", "C17", "C19", "C20"]:
     NOT_APPLICABLE[_pid] = _PENDING
